@@ -248,13 +248,13 @@ Proof.
     destruct (S (bcount s) <? nthr pa); inversion H; subst s'; clear H; left;
       unfold measure, measureA; cbn [fst]; flds; rewrite ?upd_length;
       match goal with |- context [upd i ?w _] => pose proof (wsum_upd (closed s) i w _ _ E) as WS end;
-      rewrite Hpc in WS; unfold after_bar in WS; cbn [set_pc pc wpw] in WS.
+      rewrite Hpc in WS; unfold after_bar in *; cbn [set_pc pc wpw] in WS.
     + lia.
     + destruct (Nat.eqb_spec k 3); cbn [pc wpw] in WS; lia.
   - destruct (g =? bgen s); [discriminate|]. inversion H; subst s'; clear H. left.
     unfold measure, measureA; cbn [fst]; flds. rewrite ?upd_length.
     match goal with |- context [upd i ?w _] => pose proof (wsum_upd (closed s) i w _ _ E) as WS end.
-    rewrite Hpc in WS. unfold after_bar in WS.
+    rewrite Hpc in WS. unfold after_bar in *.
     assert (k <= 3) by (destruct Hw as [(_ & ? & _)|(_ & [(? & _)|(? & _)])]; lia).
     destruct (Nat.eqb_spec k 3); cbn [pc wpw] in WS; lia.
   - destruct k as [|[|[|k]]]; [| | |discriminate].
@@ -321,6 +321,154 @@ Proof.
   intros s l s' HI H NS. destruct l; cbn [stutter] in NS; try discriminate; cbn [step] in H.
   - eapply measure_prod; eauto.
   - eapply measure_work; eauto.
+Qed.
+
+(* ------------------------------------------------------------------------------------ termination *)
+Lemma reach_inv : forall s, reachable pa script s -> Inv s.
+Proof. intros. apply inv_reachable_all; auto. Qed.
+
+Definition pstep (s' s : state) : Prop := reachable pa script s /\ exists l, progress pa s l s'.
+
+Theorem terminates_proof : well_founded pstep.
+Proof.
+  apply (wf_incl _ _ (fun s' s => mlt (measure s') (measure s))).
+  - intros s' s (R & l & H & NS). eapply measure_decreases_proof; eauto. apply reach_inv; auto.
+  - apply wf_inverse_image. apply mlt_wf.
+Qed.
+
+Theorem run_reaches_final_proof : forall s, reachable pa script s -> ends_final pa s.
+Proof.
+  intros s. induction s as [s IH] using (well_founded_induction terminates_proof). intros R.
+  destruct (finalb s) eqn:F.
+  - apply ef_final. apply finalb_spec; auto.
+  - apply ef_step.
+    + apply deadlock_free_proof; [apply reach_inv; auto|]. intros Fi. apply finalb_spec in Fi. congruence.
+    + intros l s' (H & NS). apply IH.
+      * split; auto. exists l; split; auto.
+      * eapply reach_step; eauto.
+Qed.
+
+(* ------------------------------------------------------------------------------------ final states *)
+Theorem final_complete_proof : forall s, Inv s -> final s ->
+  items s = [] /\ closed s = true /\ todo s = [] /\
+  Forall (fun w => pc w = WExited /\ wrounds w = nblocks script) (ws s) /\
+  ground s = nblocks script /\
+  Permutation (pushed s) (segd s) /\
+  length (segd s) = length (contig_sizes script).
+Proof.
+  intros s HI (PD & FX). pose proof HI as HI0. destruct HI.
+  assert (AX : cnt is_exited (ws s) = length (ws s)).
+  { apply cnt_all_true. intros i x E. rewrite Forall_nth in FX. unfold is_exited. rewrite (FX _ _ E). auto. }
+  assert (C : closed s = true) by (apply i_closed; auto).
+  assert (TD : todo s = []) by (apply i_closed; auto).
+  assert (EI : items s = []) by (apply i_ex; lia).
+  assert (NS : nsec s = 0).
+  { unfold nsec. apply cnt_all_false. intros i x E. rewrite Forall_nth in FX. unfold insec. rewrite (FX _ _ E). auto. }
+  assert (GR : ground s = nblocks script).
+  { unfold ntok_items, ntok_todo in i_tok. rewrite NS, EI, TD in i_tok. cbn [cnt] in i_tok.
+    apply (Nat.mul_cancel_r _ _ (nthr pa)); lia. }
+  repeat split; auto.
+  - rewrite Forall_nth in *. intros i x E. specialize (FX _ _ E). specialize (i_wf _ _ E).
+    unfold wfw in i_wf. rewrite FX in i_wf. split; auto. lia.
+  - rewrite i_ctg, EI, (inflight_nil _ FX). cbn. rewrite app_nil_r. auto.
+  - rewrite TD in i_nctg. cbn in i_nctg. rewrite <- i_nctg.
+    assert (P : Permutation (pushed s) (segd s)).
+    { rewrite i_ctg, EI, (inflight_nil _ FX). cbn. rewrite app_nil_r. auto. }
+    rewrite (Permutation_length P). lia.
+Qed.
+
+(* ----------------------------------------------------------------------- the A.6 accounting invariant *)
+Theorem inv_reachable_proof : forall s, reachable pa script s ->
+  (ntok_items s + ntok_todo s + nsec s) mod nthr pa = 0 /\
+  ground s * nthr pa + nsec s + ntok_items s + ntok_todo s = nblocks script * nthr pa /\
+  (forall w1 w2, In w1 (ws s) -> In w2 (ws s) -> insec (bgen s) w1 = true -> insec (bgen s) w2 = true ->
+     stage (bgen s) (pc w1) = stage (bgen s) (pc w2) /\ wrounds w1 = wrounds w2) /\
+  bcount s = cnt (fun w => match pc w with WBarW _ g => g =? bgen s | _ => false end) (ws s) /\
+  bcount s < nthr pa.
+Proof.
+  intros s R. pose proof (reach_inv s R) as HI. destruct HI.
+  split; [|split; [auto|split; [|exact i_bc]]].
+  - assert (E : ntok_items s + ntok_todo s + nsec s = (nblocks script - ground s) * nthr pa).
+    { rewrite Nat.mul_sub_distr_r. lia. }
+    rewrite E. apply Nat.mod_mul. lia.
+  - assert (ST : forall w, In w (ws s) -> insec (bgen s) w = true ->
+                 stage (bgen s) (pc w) = Some (stg s) /\ wrounds w = ground s).
+    { intros w I S. rewrite Forall_forall in i_wf. specialize (i_wf w I).
+      unfold wfw in i_wf. unfold insec in S. unfold stage.
+      destruct (pc w); try discriminate.
+      - destruct i_wf; subst; auto.
+      - destruct i_wf as [(A & B & C)|(A & [(B & C)|(B & C & D)])].
+        + subst. rewrite Nat.eqb_refl. auto.
+        + assert (g =? bgen s = false) by (apply Nat.eqb_neq; lia). rewrite H in *.
+          destruct (Nat.eqb_spec k 3); [discriminate|]. subst; auto.
+        + assert (g =? bgen s = false) by (apply Nat.eqb_neq; lia). rewrite H in S.
+          subst k. discriminate.
+      - destruct i_wf; subst; auto. }
+    intros w1 w2 I1 I2 S1 S2. destruct (ST _ I1 S1) as (A1 & B1). destruct (ST _ I2 S2) as (A2 & B2).
+    split; congruence.
+Qed.
+
+Theorem no_lost_wakeup_proof : forall s, reachable pa script s ->
+  (closed s = false -> 0 < cnt is_waitE (ws s) ->
+   length (items s) <= cnt (fun w => match pc w with WWokenE => true | _ => false end) (ws s)) /\
+  (pst s = PWaitF -> items s <> []).
+Proof.
+  intros s R. pose proof (reach_inv s R) as HI. destruct HI. split; [exact i_wake|].
+  intros P E. specialize (i_waitf P). rewrite i_cur, E in i_waitf. cbn in i_waitf. lia.
+Qed.
+
+(* --------------------------------------------------------------------- enabledb decides enabledness *)
+Lemma enabledb_complete : forall s t, Inv s -> enabled pa s t -> enabledb pa s t = true.
+Proof.
+  intros s t HI (l & s' & T & H & NS).
+  destruct l as [ntf|w sq nb|w|]; cbn [stutter] in NS; try discriminate; cbn [tid_of] in T; subst t;
+    cbn [step] in H; unfold enabledb, canon_label; cbn [step stutter].
+  - (* producer: only the choice of the notified waiter differs *)
+    rewrite NS.
+    assert (X : exists s'', step_prod pa s (first_waiter (ws s) 0) = Some s'').
+    { unfold step_prod in *. destruct (pst s); try discriminate; eauto.
+      - destruct (todo s) as [|[t|] rest]; eauto.
+        unfold step_push in *. destruct (closed s); [discriminate|].
+        destruct (push_blocked pa s (tsize t)); eauto.
+        unfold admit. destruct (notify_first (ws s)) as (l' & ->). eauto.
+      - destruct (todo s) as [|[t|] rest]; try discriminate.
+        unfold step_push in *. destruct (closed s); [discriminate|].
+        destruct (push_blocked pa s (tsize t)); eauto.
+        unfold admit. destruct (notify_first (ws s)) as (l' & ->). eauto. }
+    destruct X as (s'' & ->). reflexivity.
+  - unfold step_work in *. destruct (nth_error (ws s) w) as [wk|] eqn:E; [|discriminate].
+    destruct (pc wk) as [| | |q|k|k g|k|] eqn:Hpc; try discriminate.
+    + destruct (pull_enabled _ _ _ HI E) as (sq' & s'' & P & ->). rewrite P. reflexivity.
+    + destruct (closed s); [reflexivity|discriminate].
+    + destruct (pull_enabled _ _ _ HI E) as (sq' & s'' & P & ->). rewrite P. reflexivity.
+    + reflexivity.
+    + rewrite H. reflexivity.
+    + destruct (g =? bgen s); [discriminate|reflexivity].
+    + destruct k as [|[|[|k]]]; [| | |discriminate].
+      * destruct (w =? 0); reflexivity.
+      * destruct (claimable s); reflexivity.
+      * destruct (w =? 0); reflexivity.
+Qed.
+
+Theorem enabledb_sound_proof : forall s t, reachable pa script s ->
+  (enabledb pa s t = true <-> enabled pa s t).
+Proof.
+  intros s t R. split; [apply enabledb_sound | apply enabledb_complete; apply reach_inv; auto].
+Qed.
+
+Theorem stuckb_sound_proof : forall s, reachable pa script s -> stuckb pa s = true ->
+  ~ final s /\ forall t, ~ enabled pa s t.
+Proof.
+  intros s R H. unfold stuckb in H. apply Bool.andb_true_iff in H. destruct H as (F & X).
+  apply Bool.negb_true_iff in F, X. split.
+  - intros Fi. apply finalb_spec in Fi. congruence.
+  - intros t En. pose proof En as En0. apply (enabledb_complete s t (reach_inv s R)) in En.
+    assert (I : In t (tids s)).
+    { unfold tids. destruct t as [|w]; [left; auto|right]. apply in_map. apply in_seq.
+      destruct En0 as (l & s' & T & Hs & NS). destruct l as [ntf|w' sq nb|w'|]; cbn in T; try discriminate; inversion T; subst.
+      cbn [step] in Hs. unfold step_work in Hs. destruct (nth_error (ws s) w) eqn:E; [|discriminate].
+      assert (w < length (ws s)) by (apply nth_error_Some; congruence). lia. }
+    assert (existsb (enabledb pa s) (tids s) = true) by (apply existsb_exists; eauto). congruence.
 Qed.
 
 End Live.
